@@ -185,6 +185,22 @@ def build(ctx, case, db):
             text += "USE reaction 1\n"
         text += "END\n"
         info["mins2"] = mins2
+    # history: a last step on the water the first step left behind (saved as solution 5).  Every mineral starts absent with its target moved by a few 1e-6 .. 1e-4:
+    # the water sits that close above or below saturation, which is where 'absent' and 'must precipitate' meet
+    if mins and "ss" not in info and r.random() < 0.5:
+        mins3 = []
+        for m, target, amt, restr in mins:
+            dlt = r.choice([3e-6, 1e-5, 3e-5, 6e-5, 3e-4]) * r.choice([1, 1, -1])
+            mins3.append((m, round(target - dlt, 7), 0.0, None))
+        text = text.replace("END\nUSE solution 1\n" + blocks + react + "END\n", "END\nUSE solution 1\n" + blocks + react + "SAVE solution 5\nEND\n", 1)
+        text += "USE solution 5\nEQUILIBRIUM_PHASES 3\n" + "".join(" %s %s 0\n" % (m, f(tg)) for m, tg, _, _ in mins3)
+        if "cec" in info:
+            text += "USE exchange 1\n"
+        if surf:
+            text += "USE surface 1\n"
+        text += "END\n"
+        info["mins3"] = mins3
+    info["minseq"] = [info["mins"]] + ([info["mins2"]] if "mins2" in info else []) + ([info["mins3"]] if "mins3" in info else [])
     info.update(exsp=exsp, susp=susp)
     return text, info
 
@@ -229,8 +245,8 @@ def run_case(ctx, case):
     nchk = 0
     for ri, d in enumerate(rrows):
         kgw = d["kgw"]
-        second = ri >= 1 and "mins2" in info
-        for m, target, amt, restr in (info["mins2"] if second else info["mins"]):
+        second = ri >= 1
+        for m, target, amt, restr in info["minseq"][min(ri, len(info["minseq"]) - 1)]:
             n, si = d.get("equi:%s" % m), d.get("si:%s" % m)
             if n is None or si is None:
                 continue
